@@ -21,6 +21,12 @@ clauses
                  that stays fused): the INTERMEDIATE tensor is judged - histories, native constituents of every logical leg against
                  the universe legs (logical grouping), agreement with unfusing the same legs one call at a time (legs, shape,
                  elements), vdot / tensordot over the logical legs with a partner unfused leg by leg, then the round trip
+  forms          the same operation written differently must give the same tensor as the reference form (which is judged against the
+                 dense truth): fuse_legs axes as lists / mixed containers / (i,) for single legs, mode omitted (default_fusion hard and
+                 meta) or overridden by force_fusion; unfuse_legs axes reversed / shuffled / list / with repeats / int / () (no-op);
+                 drop_leg_history on plain and fused legs; all legs into one, rank-1 and rank-0 results, dimension-one legs, tensors
+                 without blocks; ncon over fused legs with shuffled labels vs tensordot; block() with any dictionary insertion order,
+                 order / container of common_legs, int keys, omitted common_legs
   block          yastn.block vs the harness direct sum: norm, vdot, full contraction over blocked legs, sum then
                  contraction, trace over a blocked pair; blocks of fused pieces and fusions of blocked legs; SUM-NODE MISMATCH:
                  sectors of the blocked leg removed after block() (explicit zero blocks + remove_zero_blocks, different sectors in
@@ -43,7 +49,7 @@ from vmon.harness import CaseSkip
 from checks.c01 import check_result, fnorm, realize, yerr
 
 PROP = "C03"
-RULE = ("case = (symmetry, kind in roundtrip/partial/pair/tensordot/trace/block/reject, universe legs with 1-3 sectors of dim 1-3, block "
+RULE = ("case = (symmetry, kind in roundtrip/partial/forms/pair/tensordot/trace/block/reject, universe legs with 1-3 sectors of dim 1-3, block "
         "presence masks with a requested relation equal/overlapping/disjoint, fusion trees: ALL ordered partitions of rank<=4 at "
         "depth 1 (enumerated over 7 symmetries x 3 routes) and sampled trees of rank<=6, depth<=3, route hard/meta/meta-then-hard/"
         "hard-then-meta/fuse_meta_to_hard, lazy state of every operand and of the fused tensor, tensordot policy); distinct = hash "
@@ -59,7 +65,7 @@ ENUM_ROUTES = ("hard", "meta", "fuse_meta_to_hard")
 STRIDE_QUICK = 11
 N_SAMPLED = {"quick": 8960, "thorough": 134400}
 KINDS = ("roundtrip", "pair", "tensordot", "roundtrip", "trace", "block", "pair", "reject",
-         "partial", "tensordot", "block", "reject", "roundtrip", "pair", "trace", "reject")
+         "partial", "tensordot", "block", "reject", "roundtrip", "pair", "trace", "forms")
 
 
 # ------------------------------------------------------------------ trees
@@ -257,6 +263,8 @@ def unfuse_all(ctx, y, trees, rng, partial=True):
         if len(pick) > 1:
             ctx.count("unfuse_calls_multi_axes")
         ax = pick[0] if (len(pick) == 1 and rng.random() < 0.5) else tuple(pick)
+        if any(not (0 <= i < y.ndim) for i in pick):
+            ctx.count("unfuse_calls_with_invalid_axes")         # must stay 0: negative / out-of-range axes are silently ignored by unfuse_legs
         lazy = tuple(y.trans) != tuple(range(y.ndim_n))
         if lazy and len(pick) > 1:
             ctx.count("unfuse_multi_axes_on_lazy_tensor")
@@ -515,6 +523,7 @@ def case_enumerated(ctx, idx):
     route = pick_route(E.rng, target, d, force=None if rname == "meta" else rname)
     roundtrip(E, a, trees, target, route)
     ctx.count("enumerated_roundtrips")
+    ctx.count(f"sym:roundtrip-enumerated:{sym}")
 
 
 def case_roundtrip(E):
@@ -738,6 +747,164 @@ def case_partial(E):
     ctx.count("partial_unfuse_cases")
     ctx.count("rank:%d" % rank)
     E.done(nontrivial=bool(a.blocks), extra=(tuple(pick), st))
+
+
+# ------------------------------------------------------------------ kind: API forms (container order / type, omitted arguments, degenerate values)
+
+def same_tensor(E, key, what, r, ref, tol=0.0):
+    """Differential equality of two yastn tensors (legs incl. history, charge, elements)."""
+    ctx = E.ctx
+    ctx.count("form_comparisons")
+    if r.ndim != ref.ndim or tuple(r.get_legs()) != tuple(ref.get_legs()) or tuple(r.n) != tuple(ref.n):
+        ctx.violation("form:" + key + ":legs", f"{what}: legs / charge differ from the reference form: {r.get_legs()} vs {ref.get_legs()}", E.sample(key))
+        return False
+    x, y = r.to_numpy(), ref.to_numpy()
+    good = np.array_equal(x, y) if tol == 0.0 else (x.shape == y.shape and ctx.margin("arith:form-" + key, float(np.max(np.abs(x - y))) if x.size else 0.0, tol))
+    if not good:
+        ctx.violation("form:" + key + ":elements", f"{what}: elements differ from the reference form", E.sample(key))
+        return False
+    return True
+
+
+def as_lists(axes, rng):
+    """The same axes written with lists, mixed containers and one-element groups for single legs."""
+    out = []
+    for g in axes:
+        if isinstance(g, tuple):
+            out.append(list(g) if rng.random() < 0.6 else g)
+        else:
+            out.append(g if rng.random() < 0.5 else ([g] if rng.random() < 0.5 else (g,)))
+    return out if rng.random() < 0.6 else tuple(out)
+
+
+def case_forms(E):
+    import yastn
+    ctx, rng = E.ctx, E.rng
+    rank = rng.randint(2, 5)
+    legs = []
+    for _ in range(rank):
+        l = E.leg(small=rank > 3)
+        if rng.random() < 0.3:                      # dimension-one leg: a single sector of dimension 1
+            l = D.HLeg(E.sym, l.s, [(l.ts[0], 1)])
+            ctx.count("forms_dimension_one_legs")
+        legs.append(l)
+    n = D.gen_n(rng, E.sym, legs, "fit")
+    dt = rng.choice(("float64", "complex128"))
+    dens = rng.choice((1.0, 0.7, 0.4, 0.0))
+    a = D.gen_tensor(rng, E.nprng, E.sym, legs=legs, n=n, dtype=dt, density=dens)
+    b = D.gen_tensor(rng, E.nprng, E.sym, legs=legs, n=n, dtype=dt, density=rng.choice((1.0, 0.7)))
+    if not a.blocks:
+        ctx.count("forms_tensor_without_blocks")
+    trees = gen_trees(rng, range(rank), 1)
+    mode = rng.choice(("hard", "meta"))
+    other = "meta" if mode == "hard" else "hard"
+    kind = kind_fn(("all-p", None) if mode == "hard" else ("all-m", None))
+    axes = tuple(trees)
+    E.operands = [a, b]
+    E.info = {"axes": repr(axes), "mode": mode}
+    ya, yb = E.real(a), E.real(b)
+    # reference form: nested tuples, explicit mode; judged against the dense truth
+    ref = ya.fuse_legs(axes=axes, mode=mode)
+    fb = yb.fuse_legs(axes=axes, mode=mode)
+    if not check_fused(E, "forms-reference", a, ref, trees, kind):
+        return
+    z, flat = unfuse_all(ctx, ref, trees, rng, partial=False)
+    e, lg = perm_dense(a.dense(), legs, flat)
+    check_unfused(E, "roundtrip", z, (e, lg, n))
+    ctx.count("round_trips")
+    # (1) containers: lists / mixed containers / one-element groups for single legs
+    same_tensor(E, "fuse-axes-containers", "fuse_legs with lists / mixed containers / (i,) for single legs", ya.fuse_legs(axes=as_lists(axes, rng), mode=mode), ref)
+    ctx.count("forms:fuse-containers")
+    # (2) omitted mode: the configuration default; force_fusion overrides an explicit mode
+    yd = realize(a, rng, D.make_cfg(E.sym, False, default_fusion=mode))[0]
+    same_tensor(E, "fuse-default-mode", f"fuse_legs without mode under default_fusion={mode}", yd.fuse_legs(axes=axes), ref)
+    yf = realize(a, rng, D.make_cfg(E.sym, False, default_fusion=rng.choice((mode, other)), force_fusion=mode))[0]
+    same_tensor(E, "fuse-force-fusion", f"fuse_legs(mode={other}) under force_fusion={mode}", yf.fuse_legs(axes=axes, mode=other), ref)
+    ctx.count("forms:default-mode:" + mode)
+    ctx.count("forms:force-fusion:" + mode)
+    # (1) unfuse_legs: unsorted tuple, list, repeated entries, int; (3) axes=() is a no-op
+    F = [i for i, T in enumerate(trees) if isinstance(T, tuple)]
+    uref = ref.unfuse_legs(axes=tuple(F))
+    for name, ax in (("reversed", tuple(F[::-1])), ("list", list(F)), ("shuffled", tuple(rng.sample(F, len(F)))), ("repeated", tuple(F + F[:1] + F[-1:]))):
+        same_tensor(E, "unfuse-axes-" + name, f"unfuse_legs(axes={ax!r}) vs the sorted tuple", ref.unfuse_legs(axes=ax), uref)
+        ctx.count("forms:unfuse-" + name)
+    if len(F) == 1:
+        same_tensor(E, "unfuse-axes-int", "unfuse_legs(axes=int)", ref.unfuse_legs(axes=F[0]), uref)
+    same_tensor(E, "unfuse-no-axes", "unfuse_legs(axes=()) must return the tensor unchanged", ref.unfuse_legs(axes=()), ref)
+    ctx.count("forms:unfuse-empty")
+    # (3) drop_leg_history: no-op on plain legs; on fused legs same sectors and elements, history 'o'
+    same_tensor(E, "drop-history-plain", "drop_leg_history() of a tensor with plain legs", ya.drop_leg_history(), ya)
+    if mode == "hard":
+        i = rng.choice(F)
+        dh = ref.drop_leg_history(axes=i) if rng.random() < 0.5 else ref.drop_leg_history(axes=(i,))
+        la, lb = dh.get_legs(i), ref.get_legs(i)
+        if la.history() != "o" or (la.s, la.t, la.D) != (lb.s, lb.t, lb.D) or not np.array_equal(dh.to_numpy(), ref.to_numpy()) or \
+           any(dh.get_legs(k) != ref.get_legs(k) for k in range(ref.ndim) if k != i):
+            ctx.violation("form:drop-history", f"drop_leg_history(axes={i}) changed sectors / elements / other legs or kept the history ({la.history()})",
+                          E.sample("drop-history"))
+        dall = ref.drop_leg_history()
+        if any(l.history() != "o" for l in dall.get_legs()) or not np.array_equal(dall.to_numpy(), ref.to_numpy()):
+            ctx.violation("form:drop-history", "drop_leg_history() without axes left a history or changed elements", E.sample("drop-history"))
+        ctx.count("forms:drop-history")
+    # (3) all legs into one (rank-1 result), fusing the single leg of a rank-1 tensor, and a rank-0 result
+    perm = list(range(rank))
+    rng.shuffle(perm)
+    ga, gb = ya.fuse_legs(axes=(tuple(perm),), mode=mode), yb.fuse_legs(axes=[perm], mode=mode)
+    if check_fused(E, "forms-all-into-one", a, ga, [tuple(perm)], kind):
+        da, db = a.dense(), b.dense()
+        ev = np.vdot(db, da)
+        tol = 8 * EPS * (da.size + 2) * max(fnorm(da) * fnorm(db), 1e-300)
+        v = yastn.vdot(gb, ga)
+        if not ctx.margin("arith:forms-vdot", abs(complex(v) - complex(ev)), tol):
+            ctx.violation("value:forms-vdot", f"vdot over one leg holding all legs {v}, over the original legs {ev}", E.sample("all-into-one"))
+        s0 = yastn.tensordot(gb, ga, axes=(0, 0), conj=(1, 0))            # rank-0 result
+        if s0.ndim != 0 or not ctx.margin("arith:forms-vdot", abs(complex(s0.to_number()) - complex(ev)), tol):
+            ctx.violation("value:forms-rank0", f"rank-0 contraction over the single fused leg gives {s0.to_number()} (rank {s0.ndim}), expected {ev}", E.sample("rank0"))
+        same_tensor(E, "fuse-rank0", "fuse_legs(axes=()) of a rank-0 tensor", s0.fuse_legs(axes=(), mode=mode), s0)
+        g1 = ga.fuse_legs(axes=((0,),), mode=mode)                           # a group holding the single (fused) leg: nothing to fuse
+        same_tensor(E, "fuse-single-leg-group", "fuse_legs(axes=((0,),)) of a rank-1 tensor", g1, ga)
+        z, flat = unfuse_all(ctx, ga, [tuple(perm)], rng, partial=False)
+        e, lg = perm_dense(da, legs, flat)
+        check_unfused(E, "roundtrip", z, (e, lg, n))
+        ctx.count("forms:all-into-one")
+    # (1) ncon over fused legs with labels in shuffled order vs tensordot
+    m = len(trees)
+    S = sorted(rng.sample(range(m), rng.randint(1, m)))
+    opens = [i for i in range(m) if i not in S]
+    lab = dict(zip(S, rng.sample(range(1, len(S) + 1), len(S))))
+    oa = rng.sample(range(1, 2 * len(opens) + 1), 2 * len(opens))         # output positions of the open legs of a, then of b
+    ia = [lab[i] if i in S else -oa[opens.index(i)] for i in range(m)]
+    ib = [lab[i] if i in S else -oa[len(opens) + opens.index(i)] for i in range(m)]
+    t1 = yastn.ncon([ref, fb], [ia, ib], conjs=[0, 1])
+    t2 = yastn.tensordot(ref, fb, axes=(tuple(S), tuple(S)), conj=(0, 1))
+    if opens:
+        t2 = t2.transpose(tuple(int(x) for x in np.argsort(oa)))
+    sc = max(fnorm(a.dense()) * fnorm(b.dense()), 1e-300)
+    same_tensor(E, "ncon-vs-tensordot", f"ncon over fused legs (labels {ia}, {ib}) vs tensordot over {S}", t1, t2, tol=64 * EPS * sc * (a.dense().size + 2))
+    ctx.count("forms:ncon")
+    # (1, 2) block(): insertion order of the dictionary, order / container of common_legs, omitted common_legs
+    npos = rng.randint(2, 3)
+    nc = rng.randint(0, 2)
+    pl = [E.leg(s=1, small=True) for _ in range(npos)]
+    com = [E.leg(small=True) for _ in range(nc)]
+    nb_ = D.gen_n(rng, E.sym, [pl[0]] + com, "fit")
+    pieces = {(p,): D.gen_tensor(rng, E.nprng, E.sym, legs=[pl[p]] + com, n=nb_, dtype=dt, density=rng.choice((1.0, 0.6))).to_yastn(E.cfg) for p in range(npos)}
+    cl = tuple(range(1, 1 + nc))
+    bref = yastn.block(pieces, common_legs=cl)
+    keys = list(pieces)
+    rng.shuffle(keys)
+    cl2 = list(cl)
+    rng.shuffle(cl2)
+    form = rng.choice(("tuple", "list", "int-keys"))
+    d2 = {(k[0] if form == "int-keys" else k): pieces[k] for k in keys}
+    same_tensor(E, "block-orders", "block() with another insertion order of the dictionary / order of common_legs / int keys",
+                yastn.block(d2, common_legs=cl2 if form == "list" else tuple(cl2)), bref)
+    if nc == 0:
+        same_tensor(E, "block-no-common-legs", "block() without common_legs", yastn.block(d2), bref)
+        ctx.count("forms:block-default")
+    ctx.count("forms:block-orders")
+    ctx.count("forms_cases")
+    E.done(nontrivial=bool(a.blocks), extra=(mode, form))
 
 
 # ------------------------------------------------------------------ kind: pair over the same universe legs (+, -, add, vdot, embedding)
@@ -1621,11 +1788,22 @@ def floors(tier):
     for f in FUNCS:
         for br in ("p", "s"):
             fl[f"reach:{f}:{br}"] = 1
+    fl.update({"forms_cases": 140 * k, "form_comparisons": 1800 * k, "forms:block-default": 40 * k, "forms_tensor_without_blocks": 50 * k,
+               "forms_dimension_one_legs": 140 * k, "forms:drop-history": 70 * k})
+    for f in ("fuse-containers", "default-mode:hard", "default-mode:meta", "force-fusion:hard", "force-fusion:meta", "unfuse-reversed", "unfuse-list",
+              "unfuse-shuffled", "unfuse-repeated", "unfuse-empty", "all-into-one", "ncon", "block-orders"):
+        fl["forms:" + f] = 65 * k
+    # every family on every symmetry (the rarely used ones included)
+    per = {"roundtrip": 60, "pair": 60, "tensordot": 40, "trace": 40, "block": 40, "reject": 30, "partial": 20, "forms": 20}
+    for sym in G.ALL_SYMS:
+        for kind, v in per.items():
+            fl[f"sym:{kind}:{sym}"] = v * k
+        fl[f"sym:roundtrip-enumerated:{sym}"] = len(ENUM) * len(ENUM_ROUTES) if tier == "thorough" else 12
     return fl
 
 
 DISPATCH = {"roundtrip": case_roundtrip, "pair": case_pair, "tensordot": case_tensordot, "trace": case_trace, "block": case_block,
-            "reject": case_reject, "partial": case_partial}
+            "reject": case_reject, "partial": case_partial, "forms": case_forms}
 
 
 def run_case(ctx, idx):
@@ -1638,6 +1816,7 @@ def run_case(ctx, idx):
     kind = KINDS[(j // len(G.ALL_SYMS)) % len(KINDS)]
     E = Env(ctx, idx, sym, kind)
     DISPATCH[kind](E)
+    ctx.count(f"sym:{kind}:{sym}")
 
 
 def canaries(ctx):
@@ -1705,4 +1884,5 @@ def finalize(cov, merged):
         cov["anchor_lines"] = out
     except Exception as e:            # evidence only
         cov["anchor_lines"] = "unavailable: " + repr(e)[:200]
+    cov["unfuse_calls_with_invalid_axes"] = int(c.get("unfuse_calls_with_invalid_axes", 0))   # information: silently ignored by unfuse_legs
     cov["must_reject_classes"] = {k[12:]: int(v) for k, v in c.items() if k.startswith("must_reject:")}
